@@ -6,8 +6,11 @@ subcommand `cresp`) is given one request and one reply ADU built around a chosen
 the request future resolves to is compared with the model AND with the Spec (`ref_reply`,
 `ref_exception` of Spec/ClientCodecSpec.v), both evaluated inside Coq (Model/ClientShow.v `run_resp`).
 
-A case is (framing 'T'|'R', kind, unit, start, count_or_value, pdu bytes). RTU is used only for
-PDUs the RTU response parser delimits as that PDU (otherwise the framing layer, C06, decides).
+A case is (framing 'T'|'R', kind, unit, start, count_or_value, pdu bytes, literal). RTU is used only
+for PDUs the RTU response parser delimits as that PDU (otherwise the framing layer, C06, decides).
+literal = 1 (reads only): the AddressRange is a struct literal (public fields, harness suffix `r`)
+instead of AddressRange::try_from; invalid literals must be REJECTED before anything is sent
+(finding F10, repaired by 3d39d18), valid ones behave like any other request.
 """
 import vlib
 
@@ -43,9 +46,16 @@ def genuine(r, k, s, n):
     return [k] + be(s) + be(n)
 
 
+def invalid_request(c):
+    k, s, n = c[1], c[3], c[4]
+    return k in LIMIT and (n == 0 or s + n > 65536 or n > LIMIT[k])
+
+
 def classify(c):
     """python-side class of the reply w.r.t. the request (keys and the measured distribution only)"""
-    f, k, u, s, n, pdu = c
+    f, k, u, s, n, pdu = c[:6]
+    if invalid_request(c):
+        return 'request-invalid'
     if not pdu:
         return 'empty'
     if pdu[0] == k | 0x80:
@@ -152,13 +162,16 @@ def gen_cases(ctx, quick):
     r = ctx.rng
     cases = []
 
-    def add(k, s, n, pdu, f=None, u=None):
+    def add(k, s, n, pdu, f=None, u=None, lit=None):
         pdu = [int(b) & 255 for b in pdu][:253]
+        if lit is None:
+            lit = r.randrange(2)
+        lit = lit if k in (1, 2, 3, 4) else 0
         if f is None:
             f = 'R' if rtu_deliverable(pdu) and r.random() < 0.5 else 'T'
         if f == 'R' and not rtu_deliverable(pdu):
             f = 'T'
-        cases.append((f, k, r.choice([0, 1, 17, 247, 255, r.randrange(256)]) if u is None else u, s, n, tuple(pdu)))
+        cases.append((f, k, r.choice([0, 1, 17, 247, 255, r.randrange(256)]) if u is None else u, s, n, tuple(pdu), lit))
 
     # corpus
     add(1, 10, 3, [1, 1, 5], 'T', 1)
@@ -168,6 +181,26 @@ def gen_cases(ctx, quick):
     add(3, 65411, 125, [3, 250] + list(range(250)), 'R', 1)
     add(6, 3, 513, [6, 0, 3, 2, 1], 'R', 7)
     add(1, 0, 1, [], 'T', 1)
+    # F10: struct literals that were never validated, with the replies that used to be accepted / to panic
+    add(1, 0, 0, [1, 0], 'T', 1, 1)
+    add(1, 65535, 10, [1, 2, 0xFF, 0x03], 'T', 1, 1)
+    add(3, 65535, 3, [3, 6, 0, 1, 0, 2, 0, 3], 'T', 1, 1)
+    add(2, 65535, 2, [2, 1, 3], 'R', 1, 1)
+    add(4, 65534, 3, [4, 6, 0, 1, 0, 2, 0, 3], 'R', 1, 1)
+    add(3, 0, 126, [3, 252] + [0] * 252, 'T', 1, 1)
+    for _ in range(40 if quick else 400):
+        k = r.choice([1, 2, 3, 4])
+        bad = r.choice(['zero', 'overflow', 'overflow', 'limit'])
+        if bad == 'zero':
+            s, n = r.choice([0, 65535, r.randrange(65536)]), 0
+        elif bad == 'overflow':
+            n = r.choice([2, 3, 9, 10, LIMIT[k], r.randrange(2, LIMIT[k] + 1)])
+            s = min(65535, 65536 - n + r.choice([1, 1, 2, n - 1]))
+        else:
+            n = LIMIT[k] + r.choice([1, 2, 8])
+            s = r.randrange(0, 65536 - n)
+        g = genuine(r, k, s, n)[:253]
+        add(k, s, n, r.choice([g, g, [k | 0x80, 2], []]), lit=r.choice([1, 1, 1, 0]))
     reps = 1 if quick else 6
     for _ in range(reps):
         for k in KIND_NAME:
@@ -182,9 +215,16 @@ def gen_cases(ctx, quick):
                         reqs.append((s, n))
                 if quick and len(reqs) > 24:
                     reqs = r.sample(reqs, 24)
+                if quick:                         # at most 6 requests per kind whose reply is long (expensive in coqc)
+                    long_ones = [q for q in reqs if q[1] * (2 if k in (3, 4) else 0.125) > 40]
+                    keep = set(r.sample(long_ones, min(6, len(long_ones))))
+                    reqs = [q for q in reqs if q not in long_ones or q in keep]
             for s, n in reqs:
                 g = genuine(r, k, s, n)
-                for m in mutations(r, k, s, n, g):
+                ms = mutations(r, k, s, n, g)
+                if quick and len(g) > 40:       # long replies are expensive to evaluate in Coq: genuine + a sample of the mutations
+                    ms = ms[:1] + r.sample(ms[1:], 6)
+                for m in ms:
                     add(k, s, n, m)
     # random PDUs of length 0..253 (function byte biased towards the interesting ones)
     for _ in range(1500 if quick else 30000):
@@ -192,7 +232,7 @@ def gen_cases(ctx, quick):
         if k in (5, 6):
             s, n = r.randrange(65536), (r.randrange(2) if k == 5 else r.randrange(65536))
         else:
-            n = r.choice(COUNTS[k] + [r.randrange(1, LIMIT[k] + 1)])
+            n = r.choice(COUNTS[k] + [r.randrange(1, LIMIT[k] + 1)]) if r.random() < 0.4 else r.randrange(1, 33)
             s = r.randrange(0, 65536 - n + 1)
         ln = r.choice([0, 1, 2, 3, 4, 5, 6, 7, 252, 253, r.randrange(254), r.randrange(254)])
         pdu = [r.randrange(256) for _ in range(ln)]
@@ -212,14 +252,14 @@ def gen_cases(ctx, quick):
 
 
 def line(c):
-    f, k, u, s, n, pdu = c
+    f, k, u, s, n, pdu, lit = c
     vals = 's0' if k in (15, 16) else '-'
-    return f'{f} {k} {u} {s} {n} {vals} ' + (''.join(f'{b:02X}' for b in pdu) or '-')
+    return f'{f} {k}{"r" if lit else ""} {u} {s} {n} {vals} ' + (''.join(f'{b:02X}' for b in pdu) or '-')
 
 
 def to_coq(c):
-    f, k, u, s, n, pdu = c
-    return f'({k}, {s}, {n}, {vlib.coq_N_list(pdu)})'
+    f, k, u, s, n, pdu, lit = c
+    return f'({k}, {s}, {n}, ({len(pdu)}%nat, 0x{"".join("%02x" % b for b in pdu) or "0"}))'
 
 
 def evaluate(ctx, cases, each=False):
@@ -227,27 +267,37 @@ def evaluate(ctx, cases, each=False):
         impl = [ctx.harness('cresp', [line(c)])[0] for c in cases]
     else:
         impl = ctx.harness('cresp', [line(c) for c in cases])
-    both = []
-    for lo in range(0, len(cases), 6400):         # bounded coqc memory: at most 400 cases per process
-        both += ctx.coq_eval(REQS, 'run_resp', [to_coq(c) for c in cases[lo:lo + 6400]], case_type=CASE_TYPE, per_shard=300)
-    return [(i,) + tuple(b.split('|')) for i, b in zip(impl, both)]
+    # spread the expensive cases (long genuine replies) evenly over the coqc shards
+    order = list(range(len(cases)))
+    order.sort(key=lambda i: (i * 7919) % 104729)
+    shuffled = []
+    for lo in range(0, len(order), 9600):         # bounded coqc memory: at most 800 cases per process
+        shuffled += ctx.coq_eval(REQS, 'run_resp', [to_coq(cases[i]) for i in order[lo:lo + 9600]], case_type=CASE_TYPE, per_shard=800)
+    both = [None] * len(cases)
+    for i, b in zip(order, shuffled):
+        both[i] = b
+    return [(i, b.split('|')[0], b.split('|')[0] if b.split('|')[1] == '=' else b.split('|')[1]) for i, b in zip(impl, both)]
 
 
 def spec_ok(impl, spec):
+    if spec == 'REJECTED':
+        return impl.startswith('REJECTED ')
     if spec == 'ERR other':
         return impl.startswith('ERR ') and not impl.startswith('ERR Exception(')
     return impl == spec
 
 
 def shrink_candidates(c):
-    f, k, u, s, n, pdu = c
+    f, k, u, s, n, pdu, lit = c
     if u != 1:
-        yield (f, k, 1, s, n, pdu)
+        yield (f, k, 1, s, n, pdu, lit)
     if f == 'R':
-        yield ('T', k, u, s, n, pdu)
+        yield ('T', k, u, s, n, pdu, lit)
+    if lit:
+        yield (f, k, u, s, n, pdu, 0)
     for i in range(min(len(pdu), 40)):
         if i >= 1 and pdu[i] != 0 and not (k not in (1, 2, 3, 4) and i <= 4):
-            yield (f, k, u, s, n, pdu[:i] + (0,) + pdu[i + 1:])
+            yield (f, k, u, s, n, pdu[:i] + (0,) + pdu[i + 1:], lit)
 
 
 def fails_spec(ctx, cs):
@@ -256,7 +306,7 @@ def fails_spec(ctx, cs):
 
 
 def jcase(c):
-    return [c[0], c[1], c[2], c[3], c[4], list(c[5])]
+    return [c[0], c[1], c[2], c[3], c[4], list(c[5]), c[6]]
 
 
 def run(ctx):
@@ -269,7 +319,7 @@ def run(ctx):
         return
     quick = ctx.quick()
     if ctx.replay and 'cases' in ctx.replay:
-        cases = [(c[0], int(c[1]), int(c[2]), int(c[3]), int(c[4]), tuple(c[5])) for c in ctx.replay['cases']]
+        cases = [(c[0], int(c[1]), int(c[2]), int(c[3]), int(c[4]), tuple(c[5]), int(c[6]) if len(c) > 6 else 0) for c in ctx.replay['cases']]
         results = evaluate(ctx, cases, each=True)
     else:
         cases = gen_cases(ctx, quick)
@@ -288,11 +338,13 @@ def run(ctx):
         bump(f'reply:{cl}')
         bump(f'kind:{KIND_NAME[c[1]]}')
         bump('framing:' + ('tcp' if c[0] == 'T' else 'rtu'))
+        if c[1] in (1, 2, 3, 4):
+            bump('range:' + ('struct-literal' if c[6] else 'try_from'))
         bump('result:' + (impl.split('(')[0] if impl.startswith('ERR') else impl.split(' ')[0]))
         bump(f'len:{"0" if not c[5] else "1-5" if len(c[5]) <= 5 else "6-251" if len(c[5]) < 252 else "252-253"}')
         if not spec_ok(impl, spec):
             n_spec += 1
-            key = f'client.{KIND_NAME[c[1]]}.reply-{cl}'
+            key = f'client.{KIND_NAME[c[1]]}.reply-{cl}' + ('.range-literal' if c[6] else '')
             if key not in reported and len(reported) < 6:
                 reported.add(key)
                 small = c
@@ -301,9 +353,9 @@ def run(ctx):
                     si, sm, ss = evaluate(ctx, [small], each=True)[0]
                 else:
                     si, sm, ss = impl, model, spec
-                what = (f'{KIND_NAME[small[1]]} start={small[3]} count/value={small[4]} unit={small[2]} over {"TCP" if small[0] == "T" else "RTU"}, reply PDU '
+                what = (f'{KIND_NAME[small[1]]}{" (AddressRange struct literal)" if small[6] else ""} start={small[3]} count/value={small[4]} unit={small[2]} over {"TCP" if small[0] == "T" else "RTU"}, reply PDU '
                         f'{"".join("%02X" % b for b in small[5])[:80] or "(empty)"} ({classify(small)}): client returned `{si[:80]}` but the Spec says `{ss[:80]}`')
-                ctx.violation(f'client.{KIND_NAME[small[1]]}.reply-{classify(small)}', what,
+                ctx.violation(f'client.{KIND_NAME[small[1]]}.reply-{classify(small)}' + ('.range-literal' if small[6] else ''), what,
                               {'cases': [jcase(small)], 'impl': si, 'spec': ss, 'model': sm, 'original_case': jcase(c)})
         elif impl != model:
             n_model += 1
@@ -322,14 +374,15 @@ def run(ctx):
                 'reply:wrong-function', 'reply:other-exception-function', 'reply:too-short', 'reply:too-long', 'reply:echo-mismatch',
                 'reply:echo-invalid-range', 'reply:bad-coil-value', 'reply:empty', 'result:OK', 'result:ERR Exception', 'result:ERR TrailingBytes',
                 'result:ERR InsufficientBytes', 'result:ERR ReplyEchoMismatch', 'result:ERR UnknownResponseFunction', 'result:ERR UnknownCoilState',
-                'result:ERR CountOfZero', 'result:ERR AddressOverflow', 'framing:rtu', 'framing:tcp', 'len:252-253', 'len:0']
+                'result:ERR CountOfZero', 'result:ERR AddressOverflow', 'framing:rtu', 'framing:tcp', 'len:252-253', 'len:0',
+                'reply:request-invalid', 'result:REJECTED', 'range:struct-literal', 'range:try_from']
         missing = [n for n in need if classes.get(n, 0) < 3]
-        unexpected = [k for k in classes if k.startswith('result:') and k.split(':')[1] in ('PANIC', 'REJECTED', 'BADLINE', 'OKX', 'ERR ResponseTimeout', 'ERR BadFrame')]
+        unexpected = [k for k in classes if k.startswith('result:') and k.split(':')[1] in ('PANIC', 'BADLINE', 'OKX', 'ERR ResponseTimeout', 'ERR BadFrame')]
         ctx.oblige('generator-reaches-expected-classes', not missing and not unexpected, f'missing={missing} unexpected={unexpected}')
     ctx.coverage.update({
         'evaluations': len(cases),
         'distinct_nontrivial': len({c for c in cases if len(c[5]) >= 2}),
-        'rule': 'cases (framing, kind, unit, start, count|value, reply PDU) from a seeded PRNG: for every request kind and boundary range the genuine reply and its mutations (truncation, extension, function byte, byte-count byte, data bits, echo fields, coil raw value, exception replies) plus random PDUs of length 0..253; non-trivial = PDU of at least two bytes; distinct by value. RTU framing only where the RTU response parser delimits the PDU as such',
+        'rule': 'cases (framing, kind, unit, start, count|value, reply PDU, range-is-struct-literal) from a seeded PRNG: F10 corpus (unvalidated range literals must be rejected), for every request kind and boundary range the genuine reply and its mutations (truncation, extension, function byte, byte-count byte, data bits, echo fields, coil raw value, exception replies) plus random PDUs of length 0..253; non-trivial = PDU of at least two bytes; distinct by value. RTU framing only where the RTU response parser delimits the PDU as such',
         'samples': [[line(c)[:100], r[0][:60]] for c, r in list(zip(cases, results))[:8]],
         'input_classes': classes,
         'exhaustive': False,
